@@ -807,6 +807,10 @@ func (c *Client) Start() (addr net.Addr, err error) {
 		}
 		if scanner.Err() != nil {
 			c.logger.Error("error encountered while scanning stdout", "error", scanner.Err())
+
+			// The scanner gives up on a line longer than its buffer. Keep
+			// draining stdout so the plugin never blocks writing to the pipe.
+			_, _ = io.Copy(io.Discard, runner.Stdout())
 		}
 	}()
 
